@@ -21,15 +21,25 @@ static inline int el_nonzero32(const unsigned char *b) { int nz = 0, j; for (j =
 
 /* ---------------------------------------------------------------- memcpy (DESIGN 2.4) ---------- */
 #ifdef EL_MEMCPY
-/* g_mc_idx is a ghost byte index never assigned by code: "dst[g_mc_idx] == src[g_mc_idx]" for an
- * arbitrary index is the statement that every byte is copied. */
-size_t g_mc_idx;
+/* DESTINATION-RELATIVE WATCH: g_mc_watch is a byte address fixed by the harness (never assigned by code or
+ * contract).  A copy whose destination range contains it leaves there the source byte of the same relative
+ * position; any other copy leaves it alone (exact frame).  Statements about the watched byte therefore do not
+ * depend on how the code splits, orders or loops its copies.  The requires clause is the bounds obligation. */
+const unsigned char *g_mc_watch;
+#define MC_HIT (__CPROVER_same_object(g_mc_watch, dst) && __CPROVER_POINTER_OFFSET(g_mc_watch) >= __CPROVER_POINTER_OFFSET(dst) && \
+                (size_t)(__CPROVER_POINTER_OFFSET(g_mc_watch) - __CPROVER_POINTER_OFFSET(dst)) < n)
 #define MC_B(i) ((i) < n ==> ((unsigned char*)dst)[i] == ((const unsigned char*)src)[i])
 void *memcpy(void *dst, const void *src, size_t n)
 __CPROVER_requires(__CPROVER_r_ok(src, n) && __CPROVER_w_ok(dst, n))
-__CPROVER_assigns(__CPROVER_object_from(dst))     /* sound over-approximation of the frame dst[0..n) */
+#ifdef EL_MEMCPY_FAST   /* cheaper frame (a symbolic-length havoc of an 8 KiB field costs 4x): everything from dst to the end of
+                         * its object may change, EXCEPT that the watched byte keeps its value when outside dst[0..n) */
+__CPROVER_assigns(__CPROVER_object_from(dst))
+__CPROVER_ensures((!MC_HIT && __CPROVER_r_ok(g_mc_watch, 1)) ==> *g_mc_watch == __CPROVER_old(*g_mc_watch))
+#else
+__CPROVER_assigns(__CPROVER_object_upto(dst, n))
+#endif
 __CPROVER_ensures(__CPROVER_return_value == dst)
-__CPROVER_ensures(g_mc_idx < n ==> ((unsigned char*)dst)[g_mc_idx] == ((const unsigned char*)src)[g_mc_idx])
+__CPROVER_ensures(MC_HIT ==> *g_mc_watch == ((const unsigned char*)src)[__CPROVER_POINTER_OFFSET(g_mc_watch) - __CPROVER_POINTER_OFFSET(dst)])
 #ifdef EL_MEMCPY_EXACT32
 /* additionally: the first min(n,32) bytes are copied exactly (needed where the code reads a short
  * copied field back as a whole, e.g. the 32-byte surjection bitmap) */
@@ -89,8 +99,10 @@ secp256k1_scalar g_bv_s_i; unsigned char g_bv_m_k, g_bv_e0_k;
 uint64_t g_bv_pub_x0;
 static int secp256k1_borromean_verify(const secp256k1_hash_ctx *hash_ctx, secp256k1_scalar *evalues, const unsigned char *e0, const secp256k1_scalar *s,
  const secp256k1_gej *pubs, const size_t *rsizes, size_t nrings, const unsigned char *m, size_t mlen)
-__CPROVER_requires(hash_ctx != NULL && evalues == NULL && nrings == 1 && __CPROVER_r_ok(rsizes, sizeof(size_t)) && rsizes[0] <= 256)
-__CPROVER_requires(__CPROVER_r_ok(e0, 32) && __CPROVER_r_ok(m, mlen) && mlen == 32)
+/* this contract models the single-ring call without challenge output (frame = ghosts only); the call form itself
+ * (nrings, evalues, mlen) is logged and judged by the caller's harness on accepting paths */
+__CPROVER_requires(hash_ctx != NULL && evalues == NULL && nrings >= 1 && __CPROVER_r_ok(rsizes, sizeof(size_t)) && rsizes[0] <= 256)
+__CPROVER_requires(__CPROVER_r_ok(e0, 32) && __CPROVER_r_ok(m, mlen))
 __CPROVER_requires(__CPROVER_r_ok(s, rsizes[0] * sizeof(secp256k1_scalar)) && __CPROVER_r_ok(pubs, rsizes[0] * sizeof(secp256k1_gej)))
 __CPROVER_requires(g_el_i < rsizes[0] ==> scalar_ok(&s[g_el_i]))
 __CPROVER_assigns(g_bv_n, g_bv_ret, g_bv_evalues_null, g_bv_nrings, g_bv_rsize0, g_bv_mlen, g_bv_s_i, g_bv_pub_x0, g_bv_m_k, g_bv_e0_k)
@@ -114,16 +126,18 @@ __CPROVER_ensures(g_el_k < 32 ==> g_bv_e0_k == e0[g_el_k])
 int g_ck_n, g_ck_ret, g_ck_nkeys, g_ck_lists_match;
 const secp256k1_pubkey *g_ck_online_expect, *g_ck_offline_expect;   /* harness only; the lists have symbolic length, so they are identified by address */
 uint64_t g_ck_key_x0; unsigned char g_ck_msg_k, g_ck_sub_b;
+static int g_illegal;      /* (post.h's callback counter; tentative definition) the real function reports illegal use for key objects with x = 0 */
 static int secp256k1_whitelist_compute_keys_and_message(const secp256k1_context* ctx, unsigned char *msg32, secp256k1_gej *keys, const secp256k1_pubkey *online_pubkeys, const secp256k1_pubkey *offline_pubkeys, const int n_keys, const secp256k1_pubkey *sub_pubkey)
 __CPROVER_requires(ctx != NULL && n_keys >= 0 && n_keys <= 255 && __CPROVER_w_ok(msg32, 32) && __CPROVER_w_ok(keys, n_keys * sizeof(secp256k1_gej)))
 __CPROVER_requires(__CPROVER_r_ok(online_pubkeys, n_keys * sizeof(secp256k1_pubkey)) && __CPROVER_r_ok(offline_pubkeys, n_keys * sizeof(secp256k1_pubkey)) && __CPROVER_r_ok(sub_pubkey, sizeof(secp256k1_pubkey)))
-__CPROVER_assigns(__CPROVER_object_upto(msg32, 32), __CPROVER_object_whole(keys), g_ck_n, g_ck_ret, g_ck_nkeys, g_ck_lists_match, g_ck_key_x0, g_ck_msg_k, g_ck_sub_b)
+__CPROVER_assigns(__CPROVER_object_upto(msg32, 32), __CPROVER_object_whole(keys), g_illegal, g_ck_n, g_ck_ret, g_ck_nkeys, g_ck_lists_match, g_ck_key_x0, g_ck_msg_k, g_ck_sub_b)
 __CPROVER_ensures(__CPROVER_return_value == 0 || __CPROVER_return_value == 1)
 __CPROVER_ensures(g_ck_n == __CPROVER_old(g_ck_n) + 1 && g_ck_ret == __CPROVER_return_value && g_ck_nkeys == n_keys &&
                   g_ck_lists_match == (online_pubkeys == g_ck_online_expect && offline_pubkeys == g_ck_offline_expect))
 __CPROVER_ensures(g_el_b < 64 ==> g_ck_sub_b == sub_pubkey->data[g_el_b])
 __CPROVER_ensures(g_el_i < (size_t)n_keys ==> g_ck_key_x0 == keys[g_el_i].x.n[0])
 __CPROVER_ensures(g_el_k < 32 ==> g_ck_msg_k == msg32[g_el_k])
+__CPROVER_ensures(g_illegal >= __CPROVER_old(g_illegal))
 ;
 #endif
 
@@ -363,7 +377,7 @@ int g_tp_n, g_tp_ret; secp256k1_scalar g_tp_skey; unsigned char g_tp_online_k, g
 static int secp256k1_whitelist_compute_tweaked_privkey(const secp256k1_context* ctx, secp256k1_scalar* skey, const unsigned char *online_key, const unsigned char *summed_key)
 __CPROVER_requires(ctx != NULL && __CPROVER_w_ok(skey, sizeof(*skey)) && __CPROVER_r_ok(online_key, 32) && __CPROVER_r_ok(summed_key, 32))
 __CPROVER_assigns(*skey, g_tp_n, g_tp_ret, g_tp_skey, g_tp_online_k, g_tp_summed_k)
-__CPROVER_ensures((__CPROVER_return_value == 0 || __CPROVER_return_value == 1) && scalar_ok(skey))
+__CPROVER_ensures((__CPROVER_return_value == 0 || __CPROVER_return_value == 1) && (__CPROVER_return_value == 1 ==> scalar_ok(skey)))
 __CPROVER_ensures((el_key_bad(online_key) || el_key_bad(summed_key)) ==> __CPROVER_return_value == 0)
 __CPROVER_ensures(g_tp_n == __CPROVER_old(g_tp_n) + 1 && g_tp_ret == __CPROVER_return_value && SC_EQ(g_tp_skey, *skey))
 __CPROVER_ensures(g_el_k < 32 ==> (g_tp_online_k == online_key[g_el_k] && g_tp_summed_k == summed_key[g_el_k]))
